@@ -2,6 +2,8 @@ package main
 
 import (
 	"fmt"
+	"os"
+	"path/filepath"
 	"go/types"
 	"sort"
 	"strings"
@@ -398,6 +400,19 @@ func (r *Run) frameCheck(fr *Frame, final *State, reach Term, penv *Env, fenv *E
 					get(s.V).all = true
 				}
 			}
+			if id != nil && (id.Name == "allelems" || id.Name == "allboxes") {
+				if s, ok := x.Args[0].(*EStr); ok {
+					if t := r.resolveType(aenv.pkg, s.V); t != nil {
+						if id.Name == "allelems" {
+							c, _ := r.elemComp(t)
+							get(c).all = true
+						} else {
+							c, _ := r.boxComp(t)
+							get(c).all = true
+						}
+					}
+				}
+			}
 		case *ESel:
 			handled := false
 			if id, ok := x.X.(*EIdent); ok {
@@ -516,8 +531,25 @@ func discharge(o *Obligation, timeoutS int) {
 	q := o.ctx.Query(o.mark, o.hyps, o.goal)
 	o.Query = q
 	t := timeoutS
-	if o.Cover && t > 5 {
-		t = 5
+	if o.Cover {
+		// vacuity check: a quick look for a model; "unknown" is not a refutation of reachability
+		res := solveWith("z3-new", o.Name, q, 2)
+		o.Result = &res
+		return
+	}
+	// stage 0: the cone-of-influence slice (an unsat there is a valid discharge)
+	sq, kept, nall := o.ctx.SlicedQuery(o.mark, o.hyps, o.goal)
+	if dumpSliceDir != "" {
+		os.MkdirAll(dumpSliceDir, 0o755)
+		os.WriteFile(filepath.Join(dumpSliceDir, sanitize(o.Name)+".slice.smt2"), []byte(sq), 0o644)
+	}
+	if kept < nall {
+		sr := solveWith("z3-new", o.Name+".slice", sq, 3)
+		if sr.Status == "unsat" {
+			sr.Solver = "z3-new/slice"
+			o.Result = &sr
+			return
+		}
 	}
 	res := solve(o.Name, q, t, !o.Cover)
 	o.Result = &res
@@ -635,3 +667,5 @@ func (r *Run) ifaceParamNames(isp *FuncSpec, key string) []string {
 	}
 	return nil
 }
+
+var dumpSliceDir string
